@@ -11,6 +11,7 @@ fn main() {
         std::process::exit(2);
     }
     let family = args[1].clone();
+    if family == "qlrefusals" { install_panic_hook(); fam::stamql::refusal_histogram(1, 3000); return; }
     let mut opts = Opts {
         tier: std::env::var("VERIF_TIER").unwrap_or_else(|_| "quick".into()),
         seed: std::env::var("VERIF_SEED").ok().and_then(|s| s.parse().ok()).unwrap_or(1),
